@@ -46,6 +46,10 @@ func binaryReadBytes(buf []byte, val interface{}) error {
 
 // pad an address to a multiple of align
 func align32(addr, align uint32) uint32 {
+	if align == 0 {
+		// no alignment
+		return addr
+	}
 	n := addr % align
 	if n != 0 {
 		addr += align - n
